@@ -33,6 +33,26 @@ def null_pattern_cases(ctx):
                         ["p reply 1 0 0", "x all - " + " ".join(parts)])
             c.meta["expect"] = [("rows", cs, rows)]
             cases.append(c)
+    # a cell of 1 MiB and more followed, in the same row, by NULLs and small values (and a second row)
+    for big in ((1 << 20) + 3, 70000) if ctx.quick() else ((1 << 20) + 3, 70000, 1 << 20, (1 << 21) + 1, 5 << 20):
+        for order in ("big,int,null", "null,big,null,int", "int,big,null,null,big"):
+            if ctx.quick() and (big, order) not in (((1 << 20) + 3, "big,int,null"), ((1 << 20) + 3, "null,big,null,int"), (70000, "int,big,null,null,big")):
+                continue
+            i += 1
+            cs, toks, exp = [], [], []
+            for j, k in enumerate(order.split(",")):
+                if k == "big":
+                    cs.append(dict(table=b"t", name=b"b%d" % j, type=252, flags=0)); toks.append("b:r%dx61" % big); exp.append(("bytes", b"a" * big))
+                elif k == "int":
+                    cs.append(dict(table=b"t", name=b"i%d" % j, type=3, flags=0)); toks.append("i32:5"); exp.append(("int", 5))
+                else:
+                    cs.append(dict(table=b"t", name=b"n%d" % j, type=3, flags=0)); toks.append("none"); exp.append(None)
+            n = len(cs)
+            two = not ctx.quick()
+            prog = "start %s %s er p %sfin" % (progs.cols_tok(cs), " ".join("wc %s p" % t for t in toks), ("wr %d %s p " % (n, " ".join(toks))) if two else "")
+            c = mk_case("c07r_%d" % i, [("prepare", cmd_prepare(b"p")), ("execute", cmd_execute(1))], ["p reply 1 0 0", "x all - " + prog])
+            c.meta["expect"] = [("rows", cs, [exp, exp] if two else [exp])]
+            cases.append(c)
     return cases
 
 
@@ -63,6 +83,26 @@ def random_cases(ctx):
             c = mk_case("c07r_%d" % i, [("prepare", cmd_prepare(b"p")), ("execute", cmd_execute(1))],
                         ["p reply 1 0 0", "x all - " + " ".join(parts)], lim=rng.choice([U24_MAX, U24_MAX, 9, 255]))
             c.meta["expect"] = [("rows", cs, rows)]
+            cases.append(c)
+    # a cell of 1 MiB and more followed, in the same row, by NULLs and small values (and a second row)
+    for big in ((1 << 20) + 3, 70000) if ctx.quick() else ((1 << 20) + 3, 70000, 1 << 20, (1 << 21) + 1, 5 << 20):
+        for order in ("big,int,null", "null,big,null,int", "int,big,null,null,big"):
+            if ctx.quick() and (big, order) not in (((1 << 20) + 3, "big,int,null"), ((1 << 20) + 3, "null,big,null,int"), (70000, "int,big,null,null,big")):
+                continue
+            i += 1
+            cs, toks, exp = [], [], []
+            for j, k in enumerate(order.split(",")):
+                if k == "big":
+                    cs.append(dict(table=b"t", name=b"b%d" % j, type=252, flags=0)); toks.append("b:r%dx61" % big); exp.append(("bytes", b"a" * big))
+                elif k == "int":
+                    cs.append(dict(table=b"t", name=b"i%d" % j, type=3, flags=0)); toks.append("i32:5"); exp.append(("int", 5))
+                else:
+                    cs.append(dict(table=b"t", name=b"n%d" % j, type=3, flags=0)); toks.append("none"); exp.append(None)
+            n = len(cs)
+            two = not ctx.quick()
+            prog = "start %s %s er p %sfin" % (progs.cols_tok(cs), " ".join("wc %s p" % t for t in toks), ("wr %d %s p " % (n, " ".join(toks))) if two else "")
+            c = mk_case("c07r_%d" % i, [("prepare", cmd_prepare(b"p")), ("execute", cmd_execute(1))], ["p reply 1 0 0", "x all - " + prog])
+            c.meta["expect"] = [("rows", cs, [exp, exp] if two else [exp])]
             cases.append(c)
     return cases
 
